@@ -39,6 +39,7 @@ S0 == [k |-> "u8", n |-> ZFromInt(5)]
 K(str) == [k |-> "str", cs |-> S(str)]
 Wraps(x) == {
   [k |-> "some", x |-> x], [k |-> "newtype_struct", name |-> S("N"), x |-> x],
+  [k |-> "hr", x |-> x, y |-> [k |-> "seq", xs |-> <<S0, S0>>]],
   [k |-> "newtype_variant", name |-> S("E"), variant |-> S("V"), x |-> x],
   [k |-> "seq", xs |-> <<x>>], [k |-> "seq", xs |-> <<S0, x>>], [k |-> "tuple", xs |-> <<x, S0>>],
   [k |-> "tuple_struct", name |-> S("T"), xs |-> <<x>>], [k |-> "tuple_variant", name |-> S("E"), variant |-> S("T"), xs |-> <<S0, x>>],
